@@ -1,11 +1,13 @@
 (** C17 (loops) -- the index-chasing loops of GreensFunctionPart::compute, SusceptibilityPart::compute and
     chaseIndices (TwoParticleGFPart.cpp) never read outside the inner vector they iterate over.
-    Statements only; proofs are in PV.SparseProofs (model: PV.Sparse).
+    Statements only; proofs are in PV.SparseProofs (model: PV.Sparse).  Built by checks/C01.py alongside its own file;
+    checks/C17.py builds props/Properties_C17.v, which re-states these theorems and adds the UNCONDITIONAL ones about the
+    source as it is now (PVgen.Gen_C17, PV.BoundsProofs).
 
-    The statement is REFUTED for the loops as written ([fixed] = false): witnesses below, replayed on the library
-    under AddressSanitizer by checks/C01.py (heap-buffer-overflow in GreensFunctionPart::compute).  It HOLDS for the
-    minimally repaired loops ([fixed] = true: the iterator is tested before index() is read; patches in
-    /verif/proposed/fix-*-chase-bounds.diff), and the repair cannot change any result. *)
+    History: the statement was REFUTED for the loops as first read ([fixed] = false: index() was read before the iterator
+    was tested; witnesses below, replayed on the library under AddressSanitizer: heap-buffer-overflow in
+    GreensFunctionPart::compute).  The loops were repaired in /repo (1a81890, 903e761, fc891e9); the translator now reads
+    [*_guarded = true] off the source.  The repair cannot change any result ([gf_fixed_agrees]). *)
 Require Import Bool List Arith.
 From PV Require Import Sparse SparseProofs GFPart SuscPart GFPartProofs SuscPartProofs EDSpec.
 Require PVgen.Gen_C01.
